@@ -1891,3 +1891,22 @@ Qed.
 (* unreadable content bytes have no effect on the node beyond the main loop's routine context GC *)
 Lemma garbage_has_no_effect c n : step c n EGarbage = cancel_older (n_h n, 0) n.
 Proof. reflexivity. Qed.
+
+(* C14: a round entered by node sync (canBeFirstLeader = false) above height 1 starts without a proposal, whoever
+   the leader of view 0 is: startTerm only arms the election timer *)
+Theorem sync_round_sends_no_proposal c wm shut (x : tc) : 1 < t_h (tc_t x) -> tc_v x = 0 ->
+  tc_out (start_term c wm shut x false) = OArm (t_h (tc_t x)) 0 :: tc_out x /\ tc_t (start_term c wm shut x false) = tc_t x.
+Proof.
+  intros Hh Hv. unfold start_term, init_view. rewrite Hv. cbn [N.ltb N.compare].
+  apply N.ltb_lt in Hh. cbn [tc_t tc_emit tc_set_v]. rewrite Hh. cbn. auto.
+Qed.
+
+(* ... while a round entered by a commit (canBeFirstLeader = true) proposes at once when this node leads view 0 *)
+Theorem commit_round_leader_proposes c wm shut (x : tc) : tc_v x = 0 -> leaderOf (t_cm (tc_t x)) 0 = c_me c ->
+  ctx_ok wm shut (t_h (tc_t x), 0) = true ->
+  exists r b, In (OSend (others c (t_cm (tc_t x))) (MPP r (my_sig c) (Some b))) (tc_out (start_term c wm shut x true)) /\ r_view r = 0 /\ r_height r = t_h (tc_t x).
+Proof.
+  intros Hv Hl Hc. unfold start_term, init_view. rewrite Hv. cbn [N.ltb N.compare]. cbn [tc_t tc_emit tc_set_v negb].
+  rewrite andb_false_r. rewrite Hl, N.eqb_refl. cbn [negb]. rewrite Hc. cbn [negb].
+  eexists. eexists. cbn [tc_out tc_emit]. split; [left; reflexivity|]. cbn. auto.
+Qed.
